@@ -88,6 +88,12 @@ class FakeTransport:
         self.log.append('auth:%d:%d' % (self.n_auth, 1 if ok else 0))
         self.n_auth += 1
         if not ok:
+            # the ways a server refuses a credential (all of them are "authentication failed" for the caller)
+            k = (self.env.get('authx', 0) + self.n_auth) % 3
+            if k == 1:
+                raise paramiko.BadAuthenticationType('Bad authentication type', ['publickey'])
+            if k == 2:
+                raise paramiko.ssh_exception.PartialAuthentication(['keyboard-interactive'])
             raise paramiko.AuthenticationException('no')
 
     def auth_password(self, user, password):
@@ -136,7 +142,8 @@ def run_connect(case, shared_home=None):
         keyfile = os.path.join(home, 'id_test')
         if not os.path.exists(keyfile):
             K['client'].write_private_key_file(keyfile, password='pw')
-        env = {'log': log, 'negotiates': case['negotiates'], 'auths': case['auths'], 'subs': case['subs'], 'server_key': case.get('server_key', 'server')}
+        env = {'log': log, 'negotiates': case['negotiates'], 'auths': case['auths'], 'subs': case['subs'], 'server_key': case.get('server_key', 'server'),
+               'authx': case.get('authx', 0)}
         FakeTransport.current = env
         orig_T = sshmod.paramiko.Transport
         orig_post = sshmod.SSHSession._post_connect
@@ -153,8 +160,8 @@ def run_connect(case, shared_home=None):
         a, b = socket.socketpair()
         kw = dict(host=host, port=port, sock=a, hostkey_verify=case['verify'], allow_agent=False, look_for_keys=False, username='u',
                   device_params={'name': case['profile']})
-        if case['profile'] in ('default', 'junos', 'nexus'):
-            kw['unknown_host_cb'] = cb
+        if case['profile'] in ('default', 'junos', 'nexus') and case['cb'] is not None:
+            kw['unknown_host_cb'] = cb          # cb None: the caller passes no callback at all (the library's default refuses)
         if case['pinned'] == 'm':
             kw['hostkey_b64'] = base64.b64encode(K[case.get('server_key', 'server')].asbytes()).decode()
         elif case['pinned'] == 'd':
